@@ -353,13 +353,13 @@ def execute(vh, cmd, wd, scenarios, seed, name, extra=(), timeout=1800, env=None
     return tp
 
 
-def monitor(wd, module, cfg, trace_path, timeout=3600, heap=None):
+def monitor(wd, module, cfg, trace_path, timeout=3600, heap=None, jvm=()):
     """Runs a total verdict monitor over a trace file; returns (verdict dict, TLCResult)."""
     n = sum(1 for _ in open(trace_path))
     target = os.path.join(wd, "trace.ndjson")
     if os.path.abspath(trace_path) != target:
         shutil.copy(trace_path, target)
-    r = tlc(wd, module, cfg, workers=1, timeout=timeout, heap=heap, extra=["-noGenerateSpecTE"])
+    r = tlc(wd, module, cfg, workers=1, timeout=timeout, heap=heap, jvm=jvm, extra=["-noGenerateSpecTE"])
     vs = r.prints("VERDICT")
     if r.rc != 0 or len(vs) != 1:
         raise Infra(f"{module} did not produce a verdict (rc={r.rc}):\n" + r.counterexample()[:2500] + "\n...\n" + r.out[-1500:])
@@ -413,7 +413,7 @@ class Pipeline:
         return execute(vh, self.cmd, wd, scenarios, seed, name, extra=self.extra, env=self.env)
 
     def judge(self, wd, tp):
-        return monitor(wd, self.mon[0], self.mon[1], tp, heap=self.heap)
+        return monitor(wd, self.mon[0], self.mon[1], tp, heap=self.heap, jvm=getattr(self, "jvm", ()))
 
     def run(self, vh, wd, scenarios, seed):
         """Returns (Verdict, verdict dict, TLCResult of the monitor, trace path)."""
